@@ -70,6 +70,27 @@ func families(run func(sp *ebnfref.Spec, family string)) {
 			mk("synthesised_names", fmt.Sprintf("grammar g\n%sstart = %s %s ;\n", helpers, use, wrap(b, `"b" "a"`)))
 		}
 	}
+	// (ii') user rules whose names merely have the SHAPE of a synthesised name (nothing in the specification synthesises
+	// them), or a part of it: they are ordinary rules, alone and accompanied under every bracket operator and every
+	// pair of nested ones, with a body that cannot and one that can be empty
+	var shaped []string
+	for _, sfx := range suffix {
+		shaped = append(shaped, "general_"+sfx, "gen_zz_"+sfx, "gen77_"+sfx, "gen_"+sfx, "zz_"+sfx, "gen_x_"+sfx+"s")
+	}
+	shaped = append(shaped, "gen", "genx", "gen1", "gen_x", "opt", "star_")
+	for _, name := range shaped {
+		for _, body := range []string{`"b"`, `"b" |`} {
+			rule := fmt.Sprintf("%s = %s ;\n", name, body)
+			for b1 := 0; b1 < 4; b1++ {
+				mk("synthesised_shapes", fmt.Sprintf("grammar g\n%s%sstart = %s ;\n", helpers, rule, wrap(b1, name)))
+				mk("synthesised_shapes", fmt.Sprintf("grammar g\n%sstart = \"a\" %s ;\n%s", helpers, wrap(b1, name), rule))
+				mk("synthesised_shapes", fmt.Sprintf("grammar g\n%s%sstart = %s \"a\" %s ;\n", helpers, rule, wrap(b1, name), wrap(b1, name+` "a"`)))
+				for b2 := 0; b2 < 4; b2++ {
+					mk("synthesised_shapes", fmt.Sprintf("grammar g\n%s%sstart = %s ;\n", helpers, rule, wrap(b1, wrap(b2, name))))
+				}
+			}
+		}
+	}
 	// (iii) single-character string terminals against non-terminals of the same spelled name
 	for ch, nm := range terminalNames {
 		for b := 0; b < 4; b++ {
